@@ -223,6 +223,7 @@ func (loop *EventLoop) ClearInterval(i *Interval) {
 }
 
 func (loop *EventLoop) setRunning() {
+	verifPoint(loop, "setrunning")
 	loop.stopLock.Lock()
 	defer loop.stopLock.Unlock()
 	if loop.running {
@@ -243,6 +244,7 @@ func (loop *EventLoop) setRunning() {
 // If the loop is already started it will panic.
 func (loop *EventLoop) Run(fn func(*goja.Runtime)) {
 	loop.setRunning()
+	verifPoint(loop, "run_fn")
 	fn(loop.vm)
 	loop.run(false)
 }
@@ -251,6 +253,7 @@ func (loop *EventLoop) Run(fn func(*goja.Runtime)) {
 // If the loop is already started it will panic.
 func (loop *EventLoop) Start() {
 	loop.setRunning()
+	verifPoint(loop, "start_go")
 	go loop.run(true)
 }
 
@@ -272,12 +275,17 @@ func (loop *EventLoop) StartInForeground() {
 // is not running any jobs. Use StopNoWait() instead.
 // return number of jobs remaining
 func (loop *EventLoop) Stop() int {
+	verifPoint(loop, "stop_enter")
 	loop.stopLock.Lock()
 	for loop.running {
+		verifPoint(loop, "stop_request")
 		atomic.StoreInt32(&loop.canRun, 0)
+		verifPoint(loop, "stop_wakeup")
 		loop.wakeup()
+		verifPoint(loop, "stop_wait")
 		loop.stopCond.Wait()
 	}
+	verifPoint(loop, "stop_return")
 	loop.stopLock.Unlock()
 	return int(loop.jobCount)
 }
@@ -285,6 +293,7 @@ func (loop *EventLoop) Stop() int {
 // StopNoWait tells the loop to stop and returns immediately. Can be used inside the loop. Calling it on a
 // non-running loop has no effect.
 func (loop *EventLoop) StopNoWait() {
+	verifPoint(loop, "stopnowait")
 	loop.stopLock.Lock()
 	if loop.running {
 		atomic.StoreInt32(&loop.canRun, 0)
@@ -301,10 +310,12 @@ func (loop *EventLoop) StopNoWait() {
 func (loop *EventLoop) Terminate() {
 	loop.Stop()
 
+	verifPoint(loop, "term_flag")
 	loop.auxJobsLock.Lock()
 	loop.terminated = true
 	loop.auxJobsLock.Unlock()
 
+	verifPoint(loop, "term_runaux")
 	loop.runAux()
 
 	for i := 0; i < len(loop.jobs); i++ {
@@ -312,6 +323,7 @@ func (loop *EventLoop) Terminate() {
 		if !job.cancelled {
 			job.cancelled = true
 			loop.jobCount--
+			verifPoint(loop, "term_cancel", job)
 			if job.cancel() {
 				loop.removeJob(job)
 				i--
@@ -320,8 +332,10 @@ func (loop *EventLoop) Terminate() {
 	}
 
 	for len(loop.jobs) > 0 {
+		verifPoint(loop, "term_drain")
 		(<-loop.jobChan)()
 	}
+	verifPoint(loop, "term_done")
 }
 
 // RunOnLoop schedules to run the specified function in the context of the loop as soon as possible.
@@ -334,38 +348,48 @@ func (loop *EventLoop) RunOnLoop(fn func(*goja.Runtime)) bool {
 }
 
 func (loop *EventLoop) runAux() {
+	verifPoint(loop, "runaux_swap")
 	loop.auxJobsLock.Lock()
 	jobs := loop.auxJobs
 	loop.auxJobs = loop.auxJobsSpare
 	loop.auxJobsLock.Unlock()
 	for i, job := range jobs {
+		verifPoint(loop, "runaux_job")
 		job()
 		jobs[i] = nil
 	}
+	verifPoint(loop, "runaux_done")
 	loop.auxJobsSpare = jobs[:0]
 }
 
 func (loop *EventLoop) run(inBackground bool) {
 	loop.runAux()
+	verifPoint(loop, "run_enter")
 	if inBackground {
 		loop.jobCount++
 	}
 LOOP:
 	for loop.jobCount > 0 {
+		verifPoint(loop, "run_select")
 		select {
 		case job := <-loop.jobChan:
+			verifPoint(loop, "arm_job")
 			job()
 		case <-loop.wakeupChan:
+			verifPoint(loop, "arm_wakeup")
 			loop.runAux()
+			verifPoint(loop, "run_canrun")
 			if atomic.LoadInt32(&loop.canRun) == 0 {
 				break LOOP
 			}
 		}
 	}
+	verifPoint(loop, "run_leave")
 	if inBackground {
 		loop.jobCount--
 	}
 
+	verifPoint(loop, "run_exit")
 	loop.stopLock.Lock()
 	loop.running = false
 	loop.stopLock.Unlock()
@@ -380,6 +404,7 @@ func (loop *EventLoop) wakeup() {
 }
 
 func (loop *EventLoop) addAuxJob(fn func()) bool {
+	verifPoint(loop, "aux_lock")
 	loop.auxJobsLock.Lock()
 	if loop.terminated {
 		loop.auxJobsLock.Unlock()
@@ -387,6 +412,7 @@ func (loop *EventLoop) addAuxJob(fn func()) bool {
 	}
 	loop.auxJobs = append(loop.auxJobs, fn)
 	loop.auxJobsLock.Unlock()
+	verifPoint(loop, "aux_wakeup")
 	loop.wakeup()
 	return true
 }
@@ -402,9 +428,11 @@ func (loop *EventLoop) newTimeout(f func()) *Timer {
 
 func (t *Timer) start(loop *EventLoop, timeout time.Duration) {
 	t.timer = time.AfterFunc(timeout, func() {
+		verifPoint(loop, "timer_fire", t)
 		loop.jobChan <- func() {
 			loop.doTimeout(t)
 		}
+		verifPoint(loop, "timer_sent", t)
 	})
 }
 
@@ -517,17 +545,22 @@ func (t *Timer) doCancel() bool {
 func (i *Interval) run(loop *EventLoop) {
 L:
 	for {
+		verifPoint(loop, "int_select", i)
 		select {
 		case <-i.stopChan:
+			verifPoint(loop, "int_stop", i)
 			i.ticker.Stop()
 			break L
 		case <-i.ticker.C:
+			verifPoint(loop, "int_tick_send", i)
 			loop.jobChan <- func() {
 				loop.doInterval(i)
 			}
 		}
 	}
+	verifPoint(loop, "int_remove_send", i)
 	loop.jobChan <- func() {
 		loop.removeJob(&i.job)
 	}
+	verifPoint(loop, "int_done", i)
 }
